@@ -281,6 +281,199 @@ def codec_differential(ctx):
 
 
 # ------------------------------------------------------------------------------------------------------
+# (i-b) damage differential (finding F41, repaired): a value log of its own — append entries, close, CUT one file at some
+# offset, open again (new block cache; the writer continues at the end of the highest-numbered file, i.e. at the cut
+# position), append others, read the NEW pointers (fills the cache at (file id, offset)), read the OLD pointers — crate vs
+# extracted model (`vp cut`, `vp get`; the model's cache rule is the GENERATED one, VlogParams.VLOG_CACHE_HIT_CHECKED) vs a
+# python oracle that plays VLog::get's file path on the simulated file bytes.  Under Full verification an old pointer
+# must answer the value written under it or an error — never the value of the entry that now sits at its offset.
+# Also run by C16 (tools/vlib/c16.py), where a failing input is of class vlog_truncated_wrong_data.
+VHDR = 31
+
+
+def py_entry(k, v):
+    return struct.pack(">II", len(k), len(v)) + k + v + struct.pack(">I", zlib.crc32(k + v) & 0xffffffff)
+
+
+def py_read(files, p, full):
+    """VLog::get below the cache on the simulated files: val bytes or None (error)"""
+    _, fid, off, kl, vl, crc = p
+    if fid not in files:
+        return None
+    n = 8 + kl + vl + 4
+    e = bytes(files[fid][off:off + n])
+    e += bytes(n - len(e))                   # a short read leaves zeros
+    if struct.unpack(">II", e[:8]) != (kl, vl):
+        return None
+    key, val = e[8:8 + kl], e[8 + kl:8 + kl + vl]
+    if full:
+        if struct.unpack(">I", e[8 + kl + vl:])[0] != crc or (zlib.crc32(key + val) & 0xffffffff) != crc:
+            return None
+    return val
+
+
+def show_bytes(v):
+    return ("#%d/%s" % (len(v), C.fnv(v))) if len(v) > 16 else hx(v)
+
+
+def cut_script(rng, n):
+    """n scenarios; items (command, python-oracle answer or None, note)"""
+    out = []
+    keys = [bytes.fromhex(x) for x in ("6b30", "6b31", "6b32")]
+    for _ in range(n):
+        mx, full = rng.choice([64, 100, 256, 4096, 4096]), (1 if rng.random() < 0.8 else 0)
+        out.append(("vp lognew %d %d" % (mx, full), "ok", ""))
+        files, ids = {}, dict(active=0, nxt=1)
+
+        def state():
+            return "files=%s active=%d next=%d" % (",".join("%d:%d" % (i, len(b)) for i, b in sorted(files.items())), ids["active"], ids["nxt"])
+
+        def append(k, v):
+            if ids["active"] == 0 or len(files[ids["active"]]) >= mx:
+                files[ids["nxt"]] = bytearray(b"H" * VHDR)
+                ids["active"], ids["nxt"] = ids["nxt"], ids["nxt"] + 1
+            a = ids["active"]
+            p = (1, a, len(files[a]), len(k), len(v), zlib.crc32(k + v) & 0xffffffff)
+            files[a] += py_entry(k, v)
+            return p
+
+        def emit_append(k, ln, sd, into):
+            v = C.rep(ln, sd)
+            p = append(k, v)
+            into.append((p, k, v))
+            out.append(("vp append %s %s" % (k.hex(), ("rep:%d:%d" % (ln, sd)) if ln else "-"), "ptr:" + ".".join(map(str, p)), ""))
+
+        def emit_get(p, v, note, exact=None):
+            # exact: the oracle's answer; None = model and implementation must agree, no oracle
+            exp = None
+            if exact is not None:
+                r = py_read(files, p, full)
+                exp = ("val:" + show_bytes(r)) if r is not None else "err"
+            out.append(("vp get " + " ".join(map(str, p)), exp, note))
+
+        lens = rng.choice([[3], [0, 1, 3], [3, 5], [1, 3, 20], [3, 3, 40], [7, 7, 9]])
+        A, B = [], []
+        for _ in range(rng.randint(1, 6)):
+            emit_append(rng.choice(keys), rng.choice(lens), rng.randrange(4), A)
+        out.append(("vp state", state(), ""))
+        for p, k, v in rng.sample(A, min(len(A), 2)):
+            emit_get(p, v, "before the cut", exact=True)
+        # the cut: mostly the highest-numbered file (the one the writer continues), at entry boundaries and inside entries
+        fid = ids["active"] if rng.random() < 0.85 else rng.choice(sorted(files))
+        L = len(files[fid])
+        cands = {0, 1, VHDR - 1, VHDR, L}
+        for p, k, v in A:
+            if p[1] == fid:
+                o, e = p[2], p[2] + 12 + len(k) + len(v)
+                cands |= {o, o + 1, o + 4, o + 8, o + 8 + len(k), o + 8 + len(k) + len(v) // 2, e - 4, e - 1, e}
+        off = rng.choice(sorted(c for c in cands if 0 <= c <= L))
+        b = bytes(files[fid][:off])
+        if len(b) < VHDR:
+            b = b""                            # a torn header is emptied by the open (VLOG_OPEN_EMPTIES_TORN_HEADER)
+        if fid == max(files) and not b:
+            b = b"H" * VHDR                    # the writer completes the highest-numbered file
+        files[fid] = bytearray(b)
+        ids["active"], ids["nxt"] = max(files), max(files) + 1
+        out.append(("vp cut %d %d" % (fid, off), state(), ""))
+        # new entries: sometimes exactly what was cut away (identical pointers: a legitimate hit), mostly other values of
+        # the same key and value sizes (the old pointer differs in the checksum only), or other sizes
+        lost = [(p, k, v) for (p, k, v) in A if p[1] == fid and p[2] + 12 + len(k) + len(v) > off]
+        mode = rng.random()
+        for j in range(rng.randint(1, 5)):
+            if lost and j < len(lost) and mode < 0.25:
+                _, k, v = lost[j]
+                p = append(k, v)
+                B.append((p, k, v))
+                out.append(("vp append %s %s" % (k.hex(), hx(v) if len(v) <= 16 else "-"), None if len(v) > 16 else "ptr:" + ".".join(map(str, p)), ""))
+                if len(v) > 16:                # long values are written with rep: tokens only; keep the oracle exact
+                    out.pop()
+                    B.pop()
+                    files[p[1]] = files[p[1]][:p[2]]
+                    emit_append(k, len(v), 9, B)
+            elif lost and j < len(lost) and mode < 0.8:
+                _, k, v = lost[j]
+                emit_append(rng.choice(keys), len(v), 4 + rng.randrange(4), B)
+            else:
+                emit_append(rng.choice(keys), rng.choice(lens), 4 + rng.randrange(4), B)
+        out.append(("vp state", state(), ""))
+        # some old pointers first (nothing cached yet: the file path answers), then the new ones (fill the cache), then
+        # every old pointer (the F41 reads), then everything again plus pointers with one altered field
+        for p, k, v in rng.sample(A, min(len(A), 2)):
+            emit_get(p, v, "old pointer, cache empty", exact=True if full else None)
+        for p, k, v in B:
+            emit_get(p, v, "new pointer", exact=True)
+        newat = set((q[1], q[2]) for q, _, _ in B)
+        for p, k, v in A:
+            emit_get(p, v, "OLD pointer after the cache was filled" + (", a new entry starts at its offset" if (p[1], p[2]) in newat else ""),
+                     exact=True if full else None)
+        both = A + B
+        rng.shuffle(both)
+        for p, k, v in both:
+            emit_get(p, v, "second read", exact=True if full else None)
+            if rng.random() < 0.3:
+                q = list(p)
+                q[rng.choice([3, 4, 5])] += 1
+                emit_get(tuple(q), v, "altered pointer", exact=None)
+                emit_get(p, v, "after the altered pointer", exact=True if full else None)
+    return out
+
+
+def cut_differential(ctx, pid="C11"):
+    """-> (violations [(desc, replay text)], disagreements, stats)"""
+    rng = C.Rng(ctx["seed"] * 15485863 + 41)
+    n = 400 if ctx["tier"] == "quick" else 6000
+    items = cut_script(rng, n)
+    blocks, cur = [], []
+    for it in items:
+        if it[0].startswith("vp lognew") and cur:
+            blocks.append(cur)
+            cur = []
+        cur.append(it)
+    blocks.append(cur)
+    shards = C.shard(blocks, C.NCPU)
+    scripts = [[c for b in sh for (c, _, _) in b] for sh in shards]
+    have_model = ctx.get("have_model")
+    res = C.run_pairs(scripts, sides=("impl", "model") if have_model else ("impl",))
+    viol, dis = [], []
+    st = dict(scenarios=n, commands=0, old_pointer_reads=0, old_pointer_errors=0, old_pointer_values=0, old_pointer_reads_at_new_entry=0)
+    for sh, r in zip(shards, res):
+        impl = r["impl"][0]
+        model = r["model"][0] if "model" in r else None
+        pos = 0
+        for blk in sh:
+            gi = impl[pos:pos + len(blk)]
+            gm = model[pos:pos + len(blk)] if model is not None else None
+            pos += len(blk)
+            for j, (c, exp, note) in enumerate(blk):
+                st["commands"] += 1
+                a = gi[j] if j < len(gi) else "<missing>"
+                m = (gm[j] if j < len(gm) else "<missing>") if gm is not None else None
+                if note.startswith("OLD pointer"):
+                    st["old_pointer_reads"] += 1
+                    st["old_pointer_errors" if a == "err" else "old_pointer_values"] += 1
+                    if "a new entry starts" in note:
+                        st["old_pointer_reads_at_new_entry"] += 1
+                if exp is not None and a != exp and len(viol) < 5:
+                    what = "value log cut and appended to again: `%s` (%s) answers %s, expected %s" % (c, note or "oracle", a[:120], exp[:120])
+                    text = ["# property=%s engine=vp (value log of its own; damage differential)" % pid,
+                            "# oracle: VLog::get's file path on the simulated file bytes (python): the value written under the pointer, or an error",
+                            "# " + what]
+                    for i2, (c2, e2, n2) in enumerate(blk[:j + 1]):
+                        text.append("> %s%s" % (c2, ("      # " + n2) if n2 else ""))
+                        text.append("IMPL:  %s" % (gi[i2] if i2 < len(gi) else "<missing>"))
+                        if gm is not None:
+                            text.append("MODEL: %s" % (gm[i2] if i2 < len(gm) else "<missing>"))
+                        if e2 is not None:
+                            text.append("WANT:  %s" % e2)
+                    viol.append((what, "\n".join(text) + "\n"))
+                if m is not None and m != a and len(dis) < 10:
+                    dis.append("vp (cut differential): model and implementation differ on `%s` (%s): impl %s, model %s || block: %s"
+                               % (c, note, a[:120], m[:120], " ; ".join(x for (x, _, _) in blk[:j + 1])[:1200]))
+    viol.sort(key=lambda x: len(x[1]))       # the shortest history first
+    return viol, dis, st
+
+
+# ------------------------------------------------------------------------------------------------------
 # (ii) state-machine conformance: E2 programs with the value log; after every physical command the real
 # value-log directory, writer ids and every live table (oldest_vlog_file_id, stored values) are dumped through the
 # facade; the same flush / compaction / reopen sequence is replayed in the extracted Lsm/Vlog.v machine
@@ -706,6 +899,14 @@ def explore(ctx):
     cov["evaluations"] += cc2["commands"]
     cov["disagreements_checked"] = cov.get("disagreements_checked", 0) + cc2["commands"]
     cov["vlog_codec"] = cc2
+    # (i-b) damage differential: cut + re-append + old pointers (F41, repaired)
+    dv, dd, ds = cut_differential(ctx, "C11")
+    r["violations"] += dv[:2]
+    r["disagreements"] += dd
+    cov["evaluations"] += ds["commands"]
+    cov["disagreements_checked"] += ds["commands"]
+    cov["distinct_nontrivial"] += ds["old_pointer_reads"]
+    cov["vlog_cut_differential"] = ds
     # (ii) state-machine conformance
     cf = conformance(ctx)
     r["violations"] += cf["violations"][:2]
@@ -721,7 +922,9 @@ def explore(ctx):
     cov["evaluations"] += hn + hs.get("steps", 0)
     cov["held_reader_probe"] = dict(variants=hs.get("programs"), model_steps=hs.get("steps"), cleanups_deferred=hs.get("cleanups_deferred"), files_removed=hs.get("files_removed"))
     cov["rule"] += ("; plus (i) the value-log codec differential (`vp`: pointer / location encode-decode with boundary and malformed inputs, a value log of its own with "
-                    "rotation, reads at both checksum levels, clean-up, reopen; memtable flush with separation) model vs implementation vs a python oracle; (ii) state-machine "
+                    "rotation, reads at both checksum levels, clean-up, reopen; memtable flush with separation) model vs implementation vs a python oracle; (i-b) the damage differential: append, close, cut one value-log file at an entry boundary / inside an entry / inside the header, "
+                    "reopen, append others from the cut position (same sizes, other sizes, or the very entries that were lost), read the new pointers (fills the block cache), read the OLD "
+                    "pointers, again with altered pointer fields: crate vs extracted model (generated cache rule) vs the file path played in python; (ii) state-machine "
                     "conformance: the real value-log directory, writer ids, every live table's oldest_vlog_file_id and stored values, and the version index after every physical "
                     "command vs the extracted Lsm/Vlog.v machine replaying the same flush / compaction / reopen sequence WITH the number of registered readers at each command (the run-time clean-up is skipped while there are any); (iii) regression probes of cursors held across a compaction: served from their old table set, files removed once the reader has gone")
     return r
